@@ -64,6 +64,16 @@ def check(ctx, adt=T.ANIM_ADT, F=None, only_r1=False):
     for o in ctx.obs[before:]:
         o["key"] = o["key"].replace("C07/%s/" % o["rule"], "C07/R4/%s/" % o["rule"].lower(), 1)
         o["rule"] = "R4"
+    # "once true it stays true ... until the state changes": a call of set_state with the current state has no effect and the
+    # time is rewound only by a real transition (the set_state rows of C04/C05)
+    if adt == T.ANIM_ADT:
+        before = len(ctx.obs)
+        tabA = T.build(ctx)
+        T.rules_c04(ctx, tabA)
+        T.rules_c05(ctx, tabA)
+        for o in ctx.obs[before:]:
+            o["key"] = o["key"].replace("C07/%s/" % o["rule"], "C07/R5/%s/" % o["rule"].lower(), 1)
+            o["rule"] = "R5"
     ctx.notes.append("R3 (once ended, values rest) follows from C06/R1 (the accumulator only grows), C02/R3 (Ended "
                      "maps to a constant position) and C09 (update is a function of time)")
     ctx.notes.append("not decided: float behaviour exactly at the end instant of multi-cycle timelines")
